@@ -26,6 +26,35 @@ def observe_query(env, q, doc):
     return real.observe_stream(compiled, doc), compiled
 
 
+def py_equal_twin(rng, v):
+    """a copy that Python's == cannot tell from `v` but that is a DIFFERENT JSON value: true<->1, false<->0, 1<->1.0 swapped
+    at a few places (None if there is nothing to swap)"""
+    import copy
+
+    w = copy.deepcopy(v)
+    spots = []
+
+    def rec(x):
+        if isinstance(x, dict):
+            for k in x:
+                if isinstance(x[k], (bool, int, float)) and x[k] in (0, 1):
+                    spots.append((x, k))
+                rec(x[k])
+        elif isinstance(x, list):
+            for i in range(len(x)):
+                if isinstance(x[i], (bool, int, float)) and x[i] in (0, 1):
+                    spots.append((x, i))
+                rec(x[i])
+
+    rec(w)
+    if not spots:
+        return None
+    for c, k in rng.sample(spots, min(len(spots), rng.randint(1, 3))):
+        old = c[k]
+        c[k] = (int(old) if isinstance(old, bool) else (bool(old) if isinstance(old, int) else int(old))) if rng.random() < 0.8 else float(old)
+    return w if wire.enc_json(w) != wire.enc_json(v) else None
+
+
 def history_stage(res, envdesc, cases, prop, rng=None, limit=250, jobs=8):
     """The property quantifies over every (query, value) — also the ones met by a compiled query that has been
     used before.  For a sample of the cases: compile once; apply; abandon an application half way (find_one, a
@@ -76,6 +105,14 @@ def history_stage(res, envdesc, cases, prop, rng=None, limit=250, jobs=8):
                                    "history": "compile once; find; find_one; a finditer consumed for one item and dropped; find on a value nested beyond the limit; find again on the first value (shown)",
                                    "what": "a compiled query applied again to the same value gives another outcome than the first time"})
             continue
+        twin = py_equal_twin(rng, doc)
+        if twin is not None:
+            # another object, equal to the first under Python's == (true vs 1, false vs 0): not the same JSON value
+            try:
+                got.append((q, twin, real.observe_stream(compiled, twin)))
+                lines.append(f"rfc.query\t{eenv}\t{wire.enc_str(q)}\t{wire.enc_json(twin)}")
+            except RecursionError:
+                pass
         for _e in range(2):
             checks_api.edit_in_place(rng, live)
             snap = copy.deepcopy(live)
@@ -96,7 +133,7 @@ def history_stage(res, envdesc, cases, prop, rng=None, limit=250, jobs=8):
             if rl.split("\t")[1] != want:
                 res.violations.append({"property": prop, "query": q, "document": snap, "env": envdesc,
                                        "observed": rl.split("\t")[1][:300], "expected": want[:300],
-                                       "history": "compile once; apply; edit the same container object in place; apply again (second result shown)",
+                                       "history": "compile once; apply to a value; then apply to the value shown (the same container edited in place, or another object that Python's == cannot tell from the first)",
                                        "what": "a reused compiled query does not return the RFC 9535 nodelist of the value it is applied to"})
         elif rl.endswith("err JSONPathRecursionError") and doc_depth(snap) > maxdepth:
             pass
